@@ -220,22 +220,6 @@ def decPipe : String → Option LeadingPipe
 def decBody : String → Option BodyClass
   | "b" => some .block | "u" => some .unsafeBlock | "e" => some .expr | _ => none
 
-/-- `format_extern` read off the generated arms: the first arm whose variant and guard hold -/
-def externFromArms (arms : List (Str × Str × Str × Str)) (ext : Ext) (explicitAbi : Bool) : Option Str :=
-  let variant : Str := match ext with | .none => cs% "none" | .implicit => cs% "implicit" | .explicit _ => cs% "explicit"
-  let abi : Str := match ext with | .explicit a => a | _ => []
-  let holds (g : Str) : Bool :=
-    if g == cs% "always" then true
-    else if g == cs% "explicitAbi" then explicitAbi
-    else if g == cs% "abiIsCAndNotExplicit" then abi == cs% "C" && !explicitAbi
-    else false
-  match arms.find? (fun a => a.1 == variant && holds a.2.1) with
-  | some (_, _, kind, text) =>
-    if kind == cs% "lit" then some text
-    else if kind == cs% "quoteAbi" then some (cs% "extern \"" ++ abi ++ cs% "\" ")
-    else none
-  | none => none
-
 def kwTable : String :=
   String.intercalate ";" (RF.Gen.Keywords.kwFns.flatMap (fun f =>
     f.arms.map (fun a => String.ofList f.name ++ ":" ++ String.ofList a.1 ++ ":" ++ encChars a.2)))
